@@ -16,13 +16,11 @@ func init() { register("C17", runC17) }
 var c17ScopeRe = regexp.MustCompile(`(\.(DNSNames|EmailAddresses|URIs|IPAddresses|OtherNames|DirectoryNames|RegisteredIDs|EDIPartyNames|Extensions)\b)|GetParsedDNSNames\(|SubjectAlternateNameOID`)
 
 // loops whose second verdict is unreachable for a non-syntactic reason
-var c17Exceptions = map[string]string{
-	"single-verdict|(*lints/rfc.SANEmptyName).Execute|consumelocal:seq.Bytes": "the NA exit is taken only when an element of the SAN value is not a well-formed TLV; zcrypto parsed every GeneralName of the extension before the lint runs, so that branch is dead for any certificate the parser accepted",
-}
+var c17Exceptions = map[string]string{}
 
 func runC17(c *Ctx, tier string) {
 	r := NewReport("C17", "other", tier, c)
-	r.Explanation = "A status can depend on the order of subjectAltName entries or of extensions only through a loop over them (or positional indexing). (1) single-verdict: every outermost loop in code reachable from a lint whose iterated collection derives from the certificate's SAN lists (DNSNames, EmailAddresses, URIs, IPAddresses, OtherNames, DirectoryNames, RegisteredIDs, EDIPartyNames, GetParsedDNSNames(), the re-parsed SAN extension value) or from Extensions is examined: the set of verdicts reachable through its early exits (statuses of results returned from inside the loop — helpers included, by status-flow analysis — plus 'break') must have at most one element, otherwise which entry comes first decides the outcome; the unique-selector idiom over Extensions (every early exit dominated by ext.Id.Equal(<loop-invariant OID>), at most one extension can match when none is duplicated — the property's premise) is exempt; (2) no-last-wins: a loop-carried status/result variable may be assigned at most one status inside such a loop; (2b) carried-state: in such a loop no early exit (return or break) may be controlled by a condition that reads a variable carried over from earlier iterations (other than the index / the consumed slice), no early exit may return such a variable, and the early exits of a helper have at most one constant outcome — otherwise what happens at one entry depends on which entries came before it; (3) by-oid: util.GetExtFromCert looks the extension up in ExtensionsMap by OID string, and no code in scope indexes Extensions (or a SAN list) with a constant. Eight loops in eight DNS-name lints violate (1) on the pinned tree (NA at the first unparseable name vs. a finding at the first offending one) and are listed as known findings. Loops over other lists (AIA URLs, RDNs, revoked certificates, IAN names, policies) are outside the property. (0) non-interference, the premise of the per-loop rules: the interprocedural MOD summaries (C05 rules 1-2) show that no lint method writes memory reachable from the linted object (e.g. filters, sorts or compacts a SAN list or zcrypto's cached parse of it in place) or a package-level variable, so every lint iterates over the lists as parsed, whatever ran before it. Does not decide order dependence through arithmetic on positions, through accumulated values used only after the loop (e.g. first-match captured then judged), or inside library calls."
+	r.Explanation = "A status can depend on the order of subjectAltName entries or of extensions only through a loop over them (or positional indexing). (1) single-verdict: every outermost loop in code reachable from a lint whose iterated collection derives from the certificate's SAN lists (DNSNames, EmailAddresses, URIs, IPAddresses, OtherNames, DirectoryNames, RegisteredIDs, EDIPartyNames, GetParsedDNSNames(), the re-parsed SAN extension value) or from Extensions is examined: the set of verdicts reachable through its early exits (statuses of results returned from inside the loop — helpers included, by status-flow analysis — plus 'break') must have at most one element, otherwise which entry comes first decides the outcome; the unique-selector idiom over Extensions (every early exit dominated by ext.Id.Equal(<loop-invariant OID>), at most one extension can match when none is duplicated — the property's premise) is exempt; (2) no-last-wins: a loop-carried status/result variable may be assigned at most one status inside such a loop; (2b) carried-state: in such a loop no early exit (return or break) may be controlled by a condition that reads a variable carried over from earlier iterations (other than the index / the consumed slice), no early exit may return such a variable, and the early exits of a helper have at most one constant outcome — otherwise what happens at one entry depends on which entries came before it; (3) by-oid: util.GetExtFromCert looks the extension up in ExtensionsMap by OID string, and no code in scope indexes Extensions (or a SAN list) with a constant. Scope is interprocedural: a helper that receives a SAN list or the SAN extension as an argument is analysed with the parameter standing for the caller's argument (three levels), and parser loops over a cryptobyte.String count as consuming loops. An early exit taken on the failure of zcrypto's own encoding/asn1.Unmarshal over the consumed bytes is dead for parsed input (the parser walked the same GeneralNames with the same decoder) and is not a verdict — any other decoder gets no such pass; the outcome of a helper's early exit is the constant shape of the tuple it returns. Eight loops in eight DNS-name lints violate (1) on the pinned tree (NA at the first unparseable name vs. a finding at the first offending one) and are listed as known findings. Loops over other lists (AIA URLs, RDNs, revoked certificates, IAN names, policies) are outside the property. (0) non-interference, the premise of the per-loop rules: the interprocedural MOD summaries (C05 rules 1-2) show that no lint method writes memory reachable from the linted object (e.g. filters, sorts or compacts a SAN list or zcrypto's cached parse of it in place) or a package-level variable, so every lint iterates over the lists as parsed, whatever ran before it. Does not decide order dependence through arithmetic on positions, through accumulated values used only after the loop (e.g. first-match captured then judged), or inside library calls."
 	r.Rule("single-verdict; no-last-wins; carried-state; by-oid; no-positional-index; object-read-only; no-global-write")
 	r.Trusted = []string{"go/ssa", "status-flow analysis (E2)", "zcrypto fills ExtensionsMap for every extension"}
 
